@@ -56,9 +56,9 @@ type Node struct {
 	MutedUntil time.Duration
 	// SaveTempAsked: ids of the blocks whose removal the synchronization asked to keep as temporary blocks
 	SaveTempAsked map[string]bool
-	Keys        []*Validator // validators this node generates for
-	Log         *ringLogger
-	Starts      int
+	Keys          []*Validator // validators this node generates for
+	Log           *ringLogger
+	Starts        int
 
 	BlockchainDB, GeneratorDB, StateDB, ModuleDB *db.DB
 	Chain                                        *blockchain.Chain
